@@ -349,7 +349,7 @@ PROPERTY = Property(
         "Python's uuid.UUID decides in the harness whether a reference string is an id (as SigmaCollection.__getitem__ does)",
         "object identity of rules is modelled by the position of the document the rule was created from; "
         "the same rule object contained twice in one collection is outside the model",
-        "Python recursion in the depth-first visit is modelled by fuel S(number of rules), proved sufficient; CPython's recursion limit "
+        "Python recursion in the depth-first visit is modelled by fuel S(number of rules) (sufficient: RefOrderP.visit_topo); CPython's recursion limit "
         "(reference chains deeper than ~900) is not modelled",
     ],
 )
